@@ -103,6 +103,15 @@ def small_cone(ctx, crate, rec, it):
     ps = it.calls(PUSH)
     ok = bool(ps) and all(p.args[3] == C('bool', 0) for p in ps)
     ctx.report("flags", "internal:small-cone-pushes-partial-only", ok, "the small-cone branch pushes cells with flag false only (%d site)" % len(ps), at=it.body.span, kind="N")
+    # the kept neighbours are sorted, THEN de-duplicated (dedup only removes consecutive
+    # duplicates), THEN pushed: otherwise the BMOC lists a cell twice / out of order
+    sorts = [ev for ev in it.evs if ev.callee and "sort_unstable" in ev.callee and len(ev.site) == 2]
+    dedups = [ev for ev in it.evs if ev.callee and strip_generics(ev.callee).endswith("Vec::dedup") and len(ev.site) == 2]
+    rpo = it.body.rpo()
+    pos = lambda ev: rpo.get(ev.site[-1][1], 1 << 30)
+    ok2 = len(sorts) == 1 and len(dedups) == 1 and len(ps) == 1 and pos(sorts[0]) < pos(dedups[0]) < pos(ps[0]) \
+        and it.body.dominates(sorts[0].site[-1][1], dedups[0].site[-1][1]) and it.body.dominates(dedups[0].site[-1][1], ps[0].site[-1][1])
+    ctx.report("well-formed", "internal:small-cone-sort-then-dedup-then-push", ok2, "sort_unstable → dedup → push loop, in that order (%d/%d/%d sites)" % (len(sorts), len(dedups), len(ps)), at=it.body.span, kind="N")
 
 
 def run(ctx):
